@@ -44,7 +44,7 @@ META = {
               "{resume_at(delayed 0), resume_at(clock that no longer exists), seek_to, seek_by, set_volume, set_playback_rate} x issue gap {0,1,3 callbacks}, every 5th on a finite sound. Random part: up to 40 commands with random fades/delays, fade-in, delayed start, finite sounds, streaming sounds. "
               "Monitor rules per callback: the reported state must be in the set the documented life cycle allows (fade-driven steps complete when their tween completes +-1 callback; clock-scheduled resumes leave WaitingToResume exactly in the buffer in which the observed clock reaches the time; a missing clock cancels to Stopped; Stopped absorbs); "
               "exact silence and frozen position across callbacks spent entirely in Paused/WaitingToResume/Stopped; exactly unity gain when steadily Playing, monotone gain inside fades, gain within [0, unity]; Stopped sounds unloaded at the next callback (num_sounds) and the slot reusable; finite sounds reach Stopped within a frame bound. "
-              "A case is distinct and non-trivial when its observed state trace is new and contains a transition."),
+              "A case is distinct and non-trivial when its observed state trace is new and contains a transition. Additional cases: a streaming sound whose decoder delivers nothing still completes pause/resume/stop fades and is unloaded; after several playback-state commands in one interval the state only moves by fades completing."),
         exhaustive_quick=True,
         exhaustive_thorough=True,
         domain="at most one state command per callback interval (cross-kind ordering inside one interval is C07's subject); fades 0..6 chunks, delays 0..5 chunks",
@@ -62,7 +62,7 @@ META = {
               "(2) random lengths up to 1e5 with random slices, loops (incl. loop end == length, start inside/after the loop), rates, rate pairs; (3) long sounds at rate 1 with seek_to/seek_by/set_loop_region at random callback boundaries. "
               "Oracles: bit-exact index sequence at |rate|*sound_rate*dt == 1; 4-point Hermite of the model sequence at the f64-accumulated position otherwise (8e-6 relative); any sample >= 2.5e5 is an out-of-slice read; Stopped not before the last frame was heard and reported by the callback containing sequence index last+4; "
               "after commands every consecutive heard pair obeys the loop successor rule, seeks land within one frame of the request once the 4-frame window has refilled, reported position within one frame of the heard frame. "
-              "A case is distinct and non-trivial when its expected index sequence (first 64) x rate x chunk class x rate-pair class is new and non-empty."),
+              "A case is distinct and non-trivial when its expected index sequence (first 64) x rate x chunk class x rate-pair class is new and non-empty. Command cases also run on slices of longer buffers with open-ended run-time loop regions (a looping sound must not stop); slices may extend past the audio data; a reversed sound above its loop is seeked to frames at or after the loop end."),
         exhaustive_quick=True,
         exhaustive_thorough=True,
         domain="valid slices (start<=end<=frames), loop regions with start<end<=len; degenerate regions belong to C01; excluded while listed as known finding: reverse with start position >= length",
@@ -162,7 +162,7 @@ META = {
               "Random part: scene in {main, sub-track, rejected by a full track, paused track, track dropped, manager dropped, handle dropped, stopped with fade, natural end} x pace {ahead, slow decode (300 us), stalled (gated through dec.step permits)} x fault x loop region x stop/drop moment. "
               "Oracles: after an error state()==Stopped within 2 callbacks, unloaded, silent, pop_error() == the first injected error; decoder Drop observed (thread ended) or else >= 300 further decode-loop iterations with nothing to do = violation, neither within 4 s = inconclusive; "
               "> 2000 loop re-runs after an error = busy spin; index-coded frames strictly consecutive (mod loop), across a gap of silence resume within one frame; no decoder destroyed inside a callback; no allocation in callbacks. "
-              "A case is distinct and counted when its fault was actually reached (the decoder counted the failing call) or it is a fault-free life-cycle case with a new (scene, pace, loop) combination."),
+              "A case is distinct and counted when its fault was actually reached (the decoder counted the failing call) or it is a fault-free life-cycle case with a new (scene, pace, loop) combination. Streams longer than the 16384-frame ring; errors arriving while the sound itself is paused or waits for a clock; a decoder thread that neither ends nor polls while a reference thread completes 1500 sleeps of 1 ms is a violation."),
         exhaustive_quick=True,
         exhaustive_thorough=True,
         domain="streams of 1..3000 frames (40000 for confirmations), packets 1..4096; excluded while listed as known findings: scene 'track dropped' (thread-end verdict) and multi-frame resume skips of starving paces (counted instead)",
@@ -308,7 +308,7 @@ META = {
               "quick: every 61st plus +-2048 neighbours of each boundary); semitones, clock speeds, ClockTime (+,- with u64/f64, "
               "ordering, constructors), easings (via Mapping::map, 0->0, 1->1, monotone on a grid) and Mapping clamping are sampled "
               "with boundary-biased generators. A case is distinct and non-trivial when its (function, sign/exponent class of the "
-              "input, operation, boundary class) key is new and the input is not NaN."),
+              "input, operation, boundary class) key is new and the input is not NaN. Compound operators (+=, -=) on ClockTime must agree with the binary ones."),
         exhaustive_thorough=True,
         exhaustive_quick=False,
         domain="all f32 bit patterns for decibels/panning (NaN inputs counted, not judged); ticks <= 2^53, fractions within 1 ulp of 0 and 1; easing powers powi 1..8, powf 0.1..8; mapping ranges with input_range.0 != input_range.1",
